@@ -6,3 +6,10 @@ From XV Require Import lib.Bytes.
 Definition restart_clears : list (bytes * bytes) := [(hex "6665617475726573", hex "6665617475726573") (* features, features *); (hex "6e65676f746961746564", hex "6e65676f746961746564") (* negotiated, negotiated *)].
 Definition restart_renews_decoder : bool := true. (* s.in.d = xml.NewDecoder(s.conn) *)
 Definition restart_renews_encoder : bool := true. (* s.out.e = xml.NewEncoder(s.conn) *)
+(* stream infos reset to {To, From} before the negotiator is called again with a new connection *)
+Definition restart_resets_info : list bytes := [hex "732e696e2e496e666f" (* s.in.Info *); hex "732e6f75742e496e666f" (* s.out.Info *)].
+
+(* ---- starttls.go StartTLS: state captured by the Negotiate closure ---- *)
+Definition starttls_captured : list bytes := [hex "636667" (* cfg *)].
+(* captured variables that Negotiate assigns to (directly or through a selector, index or dereference) *)
+Definition starttls_negotiate_writes : list bytes := [].
